@@ -465,6 +465,9 @@ def run(chk):
         "chain4_index_op_between_stages": (4, ("%t0", "%t1", "%t2"), ((("copy", "%sa", "%t0", next(tag)),), (("gen", "%t0", "%sc", "%t1", next(tag)),),
                                                                           (("idxop",), ("gen", "%t1", "%sm", "%t2", next(tag))), (("copy", "%t2", "%sb", next(tag)),))),
         "chain3_index_op_between_stages": (3, ("%t0", "%t1"), ((("copy", "%sa", "%t0", next(tag)),), (("idxop",), ("gen", "%t0", "%sm", "%t1", next(tag))), (("copy", "%t1", "%sb", next(tag)),))),
+        # an in-place kernel: its output buffer is one of its inputs, and the next stage reads it
+        "inplace3": (3, ("%t0", "%t1"), ((("copy", "%sa", "%t0", next(tag)),), (("gen", "%t0", "%t1", "%t1", next(tag)),), (("copy", "%t1", "%sb", next(tag)),))),
+        "inplace3b": (3, ("%t0", "%t1"), ((("copy", "%sa", "%t0", next(tag)), ("copy", "%sc", "%t1", next(tag))), (("gen", "%t1", "%t0", "%t1", next(tag)),), (("copy", "%t1", "%sb", next(tag)),))),
         "chain3": (3, ("%t0", "%t1"), ((("copy", "%sa", "%t0", next(tag)),), (("gen", "%t0", "%sc", "%t1", next(tag)),), (("copy", "%t1", "%sb", next(tag)),))),
     }
     for nm, (S_, tiles_, stages_) in fixed.items():
